@@ -41,6 +41,12 @@ func c20(p *core.Prog, r *core.Report) {
 	c20Codes(p, r)
 	c20Protocol(p, r)
 	c20AppFlag(p, r)
+	// shared obligations: a queued error frame wins over a later connection
+	// error (with C04); the declined frame of a refused call is sent before
+	// the connection can close (with C07)
+	r.Rule("C20-R6", "E6 paths", 3, "a sent error frame is not lost to the connection closing")
+	recvPriority(p, r, "C20-R6")
+	refusalOrder(p, r, "C20-R6")
 }
 
 func c20Frame(p *core.Prog, r *core.Report) {
